@@ -2,6 +2,8 @@ package visitors
 
 import (
 	"go/ast"
+	"reflect"
+	"strconv"
 	"strings"
 
 	"github.com/gopher-fleece/gleece/v2/common"
@@ -139,6 +141,24 @@ func (v *StructVisitor) getFieldMeta(
 ) ([]metadata.FieldMeta, error) {
 	names := gast.GetFieldNames(field)
 
+	// Fields that encoding/json never serializes are not part of the model: unexported (non-embedded)
+	// fields and fields explicitly tagged `json:"-"`. Their types are not materialized either.
+	if !gast.IsEmbeddedOrAnonymousField(field) {
+		if isJsonIgnoredField(field) {
+			return []metadata.FieldMeta{}, nil
+		}
+		exportedNames := make([]string, 0, len(names))
+		for _, name := range names {
+			if ast.IsExported(name) {
+				exportedNames = append(exportedNames, name)
+			}
+		}
+		if len(exportedNames) <= 0 {
+			return []metadata.FieldMeta{}, nil
+		}
+		names = exportedNames
+	}
+
 	// build a usage-side TypeUsageMeta for the field type (delegated)
 	typeUsage, err := v.typeUsageVisitor.VisitExpr(pkg, file, field.Type, typeParamEnv)
 	if err != nil {
@@ -178,6 +198,18 @@ func (v *StructVisitor) getFieldMeta(
 	}
 
 	return meta, nil
+}
+
+// isJsonIgnoredField reports whether the field carries a `json:"-"` tag (but not `json:"-,"`, which names the key "-")
+func isJsonIgnoredField(field *ast.Field) bool {
+	if field == nil || field.Tag == nil {
+		return false
+	}
+	tag, err := strconv.Unquote(field.Tag.Value)
+	if err != nil {
+		return false
+	}
+	return reflect.StructTag(tag).Get("json") == "-"
 }
 
 func (v *StructVisitor) graphStructAndFields(structMeta metadata.StructMeta) (graphs.SymbolKey, error) {
